@@ -237,8 +237,9 @@ def large_model(rng, graph=None):
 def random_model(rng, max_species=3, max_reactions=2, max_cells=4, max_order=3, max_mol=6, graph=None,
                  multigraph=False, chem_p=0.25, big_p=0.0):
     ns = rng.randint(1, max_species)
-    labels = LABELS[:ns]
-    envs = ["a", "b"] if rng.random() < 0.6 else ["a"]
+    # (declaration order is not alphabetical order: species and environments are named in any order)
+    labels = rng.sample(LABELS, ns)
+    envs = rng.choice([["a", "b"], ["b", "a"], ["z", "a"]]) if rng.random() < 0.6 else [rng.choice(["a", "m"])]
     species = []
     for l in labels:
         s = {"label": l, "D": per_env(rng, envs, DS)}
